@@ -1,9 +1,11 @@
 import Skc.Drv.Json
 import Skc.Drv.OpsC03
 import Skc.Drv.OpsAgg
+import Skc.Drv.OpsDom
 import Skc.Drv.OpsC01
 import Skc.Drv.OpsC18
 import Skc.Drv.OpsC14
+import Skc.Drv.OpsC17
 /-! Dispatch of driver operations to the executable model: one handler per property file. -/
 open Lean
 namespace Skc.Drv
@@ -11,9 +13,11 @@ namespace Skc.Drv
 def handlers : List (String → Json → Option (Except String Json)) :=
   [ handleC03
   , handleAgg
+  , handleDom
   , handleC01
   , handleC18
   , handleC14
+  , handleC17
   ]
 
 def handle (j : Json) : Except String Json := do
